@@ -53,7 +53,10 @@ KF = "F-C13-1"
 
 NPM = 1
 TYPES = [[], [[-1, ""]], [[-2, ""]], [[-1, ""], [-2, ""]], [[3, "peer"]], [[3, "x"]], [[3, "x"], [-1, ""]],
-         [[5, "k"]], [[1, "a"], [3, "b"]]]
+         [[5, "k"]], [[1, "a"], [3, "b"]],
+         # types with several valued attributes that agree on the last one and differ earlier
+         [[1, "b"], [3, "b"]], [[4, "sources"], [5, "jar"]], [[4, "tests"], [5, "jar"]], [[3, "provided"], [11, ""]],
+         [[3, "runtime"], [11, ""]], [[1, "a"], [3, "b"], [5, "k"]], [[1, "a"], [3, "c"], [5, "k"]]]
 REQS = ["", "*", "^1", "^1.0.0", "1", ">=2"]
 ERRTEXT = ["not found", "could not find", "", "e"]
 
@@ -202,6 +205,9 @@ def gen_distinct(rng, n, p_err, density):
         edges.append([rng.randrange(n), rng.randrange(n), rng.choice(REQS), rng.choice(TYPES)])
         if rng.random() < 0.2:
             edges.append(list(edges[-1][:2]) + [rng.choice(REQS), rng.choice(TYPES)])
+        if rng.random() < 0.15:
+            # parallel edge with the SAME requirement and another type: only the type orders them
+            edges.append(list(edges[-1][:3]) + [rng.choice(TYPES)])
     return (nodes, edges, "")
 
 
